@@ -49,6 +49,12 @@ pub struct Case {
     /// xargs is started with SIGCHLD ignored
     #[serde(default)]
     pub sigchld_ignored: bool,
+    /// with cmd 0: the recorder is named bare ("rec") and found through PATH, where directories
+    /// that come first hold 1 a regular file of that name without execute permission, 2 a directory
+    /// of that name, 3 nothing (one of them does not exist) - the search passes over all of these
+    /// (execvp), so the command is found and can be executed: the outcomes decide the status
+    #[serde(default)]
+    pub path_lookup: u8,
 }
 
 fn ok_outcome() -> Oc {
@@ -78,7 +84,7 @@ pub fn gen_case(g: &mut Gen) -> Case {
     }
     let batch = g.weighted(&[5, 3, 2]) as u8;
     let k = if batch == 2 { 1 } else { g.usize_in(1, 3) };
-    Case { outcomes, k, batch, cmd: g.weighted(&[14, 1, 1, 1, 1, 1, 1]) as u8, mode: g.weighted(&[5, 2, 1]) as u8, no_run_if_empty: g.chance(1, 3), bare: gen_outcome(g), stderr_full: g.chance(1, 6), sigchld_ignored: g.chance(1, 6) }
+    Case { outcomes, k, batch, cmd: g.weighted(&[14, 1, 1, 1, 1, 1, 1]) as u8, mode: g.weighted(&[5, 2, 1]) as u8, no_run_if_empty: g.chance(1, 3), bare: gen_outcome(g), stderr_full: g.chance(1, 6), sigchld_ignored: g.chance(1, 6), path_lookup: if g.chance(1, 5) { g.usize_in(1, 3) as u8 } else { 0 } }
 }
 
 pub fn script_of(o: &[Oc]) -> String {
@@ -158,7 +164,26 @@ pub fn check(ctx: &mut Ctx, c: &Case) -> Outcome {
     if c.no_run_if_empty {
         opts.push("-r".into());
     }
+    let mut extra_env: Vec<(OsString, OsString)> = vec![];
+    if c.cmd == 0 && c.path_lookup > 0 {
+        let abs = ctx.root.join(d);
+        let p1 = abs.join("p1");
+        std::fs::create_dir(&p1).unwrap();
+        match c.path_lookup {
+            1 => std::fs::write(p1.join("rec"), b"#!/bin/sh\nexit 9\n").unwrap(),
+            2 => std::fs::create_dir(p1.join("rec")).unwrap(),
+            _ => {}
+        }
+        let real = crate::engine::proc::safe_path_dir();
+        let mut path = OsString::from(abs.join("absent"));
+        path.push(":");
+        path.push(&p1);
+        path.push(":");
+        path.push(&real);
+        extra_env.push(("PATH".into(), path));
+    }
     let cmd0: OsString = match c.cmd {
+        0 if c.path_lookup > 0 => "rec".into(),
         0 => rec_path(),
         1 => "no-such-command-xyz".into(),
         2 => format!("{d}/missing/cmd").into(),
@@ -203,8 +228,9 @@ pub fn check(ctx: &mut Ctx, c: &Case) -> Outcome {
     };
     // -I with empty input runs nothing (C20) - not asserted here beyond the status
     let script = if c.outcomes.is_empty() { script_of(std::slice::from_ref(&c.bare)) } else { script_of(&c.outcomes) };
-    let run = run_xargs(ctx, &opts, &cmd, &input, &script, BinOpts { clear_env: true, stderr_sink: c.stderr_full as u8, ignore_sigchld: c.sigchld_ignored, ..Default::default() });
+    let run = run_xargs(ctx, &opts, &cmd, &input, &script, BinOpts { clear_env: true, env: extra_env, stderr_sink: c.stderr_full as u8, ignore_sigchld: c.sigchld_ignored, ..Default::default() });
     let kind = match c.cmd {
+        0 if c.path_lookup > 0 => ["", "rec-behind-a-non-executable-file-on-PATH", "rec-behind-a-directory-on-PATH", "rec-behind-empty-and-absent-PATH-directories"][c.path_lookup as usize],
         0 => "rec",
         1 | 2 => "missing-command",
         _ => "non-executable",
@@ -232,6 +258,7 @@ pub fn check(ctx: &mut Ctx, c: &Case) -> Outcome {
         .class_if(c.batch == 2, "replace-mode")
         .class_if(c.stderr_full, "stderr-cannot-be-written")
         .class_if(c.sigchld_ignored, "started-with-SIGCHLD-ignored")
+        .class_if(c.cmd == 0 && c.path_lookup > 0, "command-found-through-PATH-behind-unusable-candidates")
         .sample(json!({"cmdline": format!("xargs {} {}", opts.iter().map(|o| o.to_string_lossy().into_owned()).collect::<Vec<_>>().join(" "), kind), "script": script_of(&c.outcomes), "status": want_status, "invocations": want_started}))
         .ok()
 }
@@ -390,7 +417,7 @@ fn run(w: &mut Worker) {
                 o.push(classes[idx % classes.len()].clone());
                 idx /= classes.len();
             }
-            all.push(Case { outcomes: o, k: 1, batch: (all.len() % 2) as u8, cmd: 0, mode: 0, no_run_if_empty: false, bare: classes[all.len() % classes.len()].clone(), stderr_full: all.len() % 5 == 4, sigchld_ignored: all.len() % 7 == 6 });
+            all.push(Case { outcomes: o, k: 1, batch: (all.len() % 2) as u8, cmd: 0, mode: 0, no_run_if_empty: false, bare: classes[all.len() % classes.len()].clone(), stderr_full: all.len() % 5 == 4, sigchld_ignored: all.len() % 7 == 6, path_lookup: 0 });
         }
     }
     w.exhaustive("outcomes-short", &format!("all outcome sequences of length <= {maxlen} over 6 outcome classes"), all.into_iter(), check);
